@@ -10,7 +10,8 @@
 (* Each row is first judged by the LAW (Part A of GlomStream: outputs = reference            *)
 (* composition, END where the reference ends, pulled <= DemandLA), then its event            *)
 (* interleaving is stepped through the pull machine (Part B), action by action.             *)
-(* Printed: {"reject": i, "clause": c} - clauses "outputs", "end", "laziness" are            *)
+(* Printed: {"reject": i, "clause": c} - "outputs", "end", "laziness", "first", "all",        *)
+(* "exception" (obs.exc: a pipeline the law calls well-typed raised) are                      *)
 (* violations of the law; "drift:*" means only the mechanism model                            *)
 (* disagrees - and finally {"done": n, "skipped": ill-typed rows}.                           *)
 EXTENDS GlomStream, Json, IOUtils
@@ -61,6 +62,7 @@ TermVerdict(pr, t) ==
 LawVerdict(r) ==
   LET pr == Predict(r.pipe, r.srcd, r.kmax, r.horizon) IN
   IF pr.bad \/ pr.demLA[1] = INF THEN "skip"
+  ELSE IF r.obs.exc THEN "exception"          \* a well-typed pipeline raised
   ELSE LET v == JudgeAgainst(pr, r) IN IF v # "" THEN v ELSE TermVerdict(pr, r.term)
 
 \* ---- stepping -------------------------------------------------------------------------------
